@@ -24,6 +24,7 @@ import (
 	"go/token"
 	"os"
 	"path/filepath"
+	"regexp"
 	"sort"
 	"strings"
 )
@@ -111,6 +112,8 @@ func (k *c12Sk) call(c *ast.CallExpr) {
 		return
 	}
 	switch sel.Sel.Name {
+	case "TryLock":
+		k.emit("TryLock")
 	case "Lock", "Unlock":
 		if c12SelTail(sel.X) == "MutexesMutex" {
 			if sel.Sel.Name == "Lock" {
@@ -127,6 +130,12 @@ func (k *c12Sk) call(c *ast.CallExpr) {
 		}
 		if id, ok := sel.X.(*ast.Ident); ok && k.roles[id.Name] == "M" {
 			k.emit("M." + sel.Sel.Name)
+			return
+		}
+		if id, ok := sel.X.(*ast.Ident); ok {
+			// a local value that is locked: the named mutex, however it was obtained
+			_ = id
+			k.emit("M?." + sel.Sel.Name)
 			return
 		}
 		k.emit("?." + sel.Sel.Name)
@@ -153,9 +162,16 @@ func (k *c12Sk) stmt(s ast.Stmt) {
 	case *ast.AssignStmt:
 		// name := …Children[0].Token.Val
 		if len(x.Lhs) == 1 && len(x.Rhs) == 1 {
-			if id, ok := x.Lhs[0].(*ast.Ident); ok && c12SelTail(x.Rhs[0]) == "Val" {
+			if id, ok := x.Lhs[0].(*ast.Ident); ok && c12IsNameToken(x.Rhs[0]) {
 				k.roles[id.Name] = "N"
 				return
+			}
+			// a plain copy keeps the role: key := name
+			if id, ok := x.Lhs[0].(*ast.Ident); ok {
+				if src, ok := x.Rhs[0].(*ast.Ident); ok && k.roles[src.Name] != "" && x.Tok == token.DEFINE {
+					k.roles[id.Name] = k.roles[src.Name]
+					return
+				}
 			}
 		}
 		// v, ok := table[key]
@@ -617,12 +633,44 @@ func c12OrderFacts(sk []string) []c12Fact {
 	inside := idx(sk, func(t string) bool {
 		return isSec(t) && (strings.Contains(t, "M.Lock") || strings.Contains(t, "body") || strings.Contains(t, "M.Unlock"))
 	})
+	// 5. the key of every table access is the block's name token itself (N): two blocks exclude each
+	// other exactly when they carry the same name
+	keyRe := regexp.MustCompile(`(?:get|set) [MO]\[([^\]]*)\]`)
+	keysSeen, keysOK := false, true
+	for _, t := range sk {
+		for _, m := range keyRe.FindAllStringSubmatch(t, -1) {
+			keysSeen = true
+			if m[1] != "N" {
+				keysOK = false
+			}
+		}
+	}
+	out = append(out, c12Fact{"the key of every table access is the name token", tv(keysSeen, keysOK)})
+	// 6. the named mutex is acquired by exactly one blocking Lock() (absence = refuted: polling or
+	// a bounded wait is not mutual exclusion and does not queue later entrants)
+	nLock, try := 0, false
+	for _, t := range sk {
+		if t == "M.Lock" || t == "M?.Lock" || strings.Contains(t, "M.Lock") && isSec(t) {
+			nLock++
+		}
+		if strings.Contains(t, "TryLock") {
+			try = true
+		}
+	}
+	switch {
+	case try || nLock == 0:
+		out = append(out, c12Fact{"the named mutex is acquired by one blocking Lock()", "false"})
+	case nLock == 1:
+		out = append(out, c12Fact{"the named mutex is acquired by one blocking Lock()", "true"})
+	default:
+		out = append(out, c12Fact{"the named mutex is acquired by one blocking Lock()", "unknown"})
+	}
 	malformed := idx(sk, func(t string) bool { return t == "T.Lock-without-Unlock" || t == "T.Unlock-without-Lock" })
 	switch {
 	case malformed >= 0:
 		// the sections are not straight-line code (each branch with its own Unlock …): this
 		// source-order reading of the skeleton cannot tell
-		for i := range out {
+		for i := range out[:3] {
 			out[i].kind = "unknown"
 		}
 		out = append(out, c12Fact{"M.Lock, M.Unlock and the body outside MutexesMutex sections", "unknown"})
@@ -729,6 +777,24 @@ func c12ReleaseDeferred() ([]c12Fact, error) {
 		out = append(out, c12Fact{"no Lock of a local mutex found in Eval", "unknown"})
 	}
 	return out, nil
+}
+
+// c12IsNameToken recognises <…>.Children[0].Token.Val — the name written after `mutex`.
+func c12IsNameToken(e ast.Expr) bool {
+	v, ok := e.(*ast.SelectorExpr)
+	if !ok || v.Sel.Name != "Val" {
+		return false
+	}
+	t, ok := v.X.(*ast.SelectorExpr)
+	if !ok || t.Sel.Name != "Token" {
+		return false
+	}
+	ix, ok := t.X.(*ast.IndexExpr)
+	if !ok || c12SelTail(ix.X) != "Children" {
+		return false
+	}
+	lit, ok := ix.Index.(*ast.BasicLit)
+	return ok && lit.Value == "0"
 }
 
 // c12IsHook recognises verifhook.At(…) (an empty function unless built with the tag verif).
